@@ -489,7 +489,7 @@ impl<'tcx> Dumper<'tcx> {
         }
     }
 
-    fn rvalue(&mut self, r: &mir::Rvalue<'tcx>, env: TypingEnv<'tcx>) -> J {
+    fn rvalue(&mut self, r: &mir::Rvalue<'tcx>, env: TypingEnv<'tcx>, body: &mir::Body<'tcx>) -> J {
         match r {
             mir::Rvalue::Use(o, _) => jarr(vec![jstr("use"), self.operand(o, env)]),
             mir::Rvalue::Repeat(o, n) => {
@@ -505,8 +505,44 @@ impl<'tcx> Dumper<'tcx> {
                 jarr(vec![jstr("raw"), jstr(format!("{:?}", k)), self.place(p)])
             }
             mir::Rvalue::Cast(k, o, t) => {
-                let t = self.ty(*t);
-                jarr(vec![jstr("cast"), jstr(format!("{:?}", k)), self.operand(o, env), jint(t as i128)])
+                let mut v = vec![jstr("cast"), jstr(format!("{:?}", k)), self.operand(o, env)];
+                let tid = self.ty(*t);
+                v.push(jint(tid as i128));
+                // unsizing to a trait object: record the vtable methods of the concrete type
+                if let mir::CastKind::PointerCoercion(..) = k {
+                    let src = o.ty(&body.local_decls, self.tcx);
+                    if let (Some(sp), Some(dp)) = (src.builtin_deref(true), t.builtin_deref(true)) {
+                        if let ty::Dynamic(preds, _) = dp.kind() {
+                            if let Some(principal) = preds.principal() {
+                                let trait_def = principal.def_id();
+                                let mut methods = Vec::new();
+                                // peel references: <&T as Trait>::m forwards to <T as Trait>::m for the std traits we follow
+                                let mut sp = sp;
+                                let mut peeled = 0;
+                                while let ty::Ref(_, inner, _) = sp.kind() {
+                                    sp = *inner;
+                                    peeled += 1;
+                                }
+                                if principal.skip_binder().args.is_empty() && !matches!(sp.kind(), ty::Dynamic(..)) {
+                                    let items: Vec<_> = self.tcx.associated_items(trait_def).in_definition_order().filter(|i| i.is_fn()).map(|i| (i.name().to_string(), i.def_id)).collect();
+                                    for (name, mdef) in items {
+                                        if self.tcx.generics_of(mdef).own_params.iter().any(|p| !matches!(p.kind, ty::GenericParamDefKind::Lifetime)) {
+                                            continue;
+                                        }
+                                        let args = self.tcx.mk_args(&[sp.into()]);
+                                        let margs = ty::GenericArgs::for_item(self.tcx, mdef, |param, _| {
+                                            if (param.index as usize) < args.len() { args[param.index as usize] } else { self.tcx.lifetimes.re_erased.into() }
+                                        });
+                                        let c = self.callee(mdef, margs, env);
+                                        methods.push((name, c));
+                                    }
+                                }
+                                v.push(jobj(vec![("dyn_trait", jstr(self.path(trait_def))), ("peeled", jint(peeled)), ("vtable", J::Obj(methods))]));
+                            }
+                        }
+                    }
+                }
+                jarr(v)
             }
             mir::Rvalue::BinaryOp(op, ab) => {
                 let (a, b) = &**ab;
@@ -586,7 +622,7 @@ impl<'tcx> Dumper<'tcx> {
                 match &st.kind {
                     mir::StatementKind::Assign(b) => {
                         let (p, r) = &**b;
-                        stmts.push(jarr(vec![jstr("a"), self.place(p), self.rvalue(r, env), sp]));
+                        stmts.push(jarr(vec![jstr("a"), self.place(p), self.rvalue(r, env, &body), sp]));
                     }
                     mir::StatementKind::SetDiscriminant { place, variant_index } => {
                         stmts.push(jarr(vec![
